@@ -33,6 +33,10 @@ func main() {
 		switch suite {
 		case "fsmtable":
 			runH1Table(*out, *seed, *tier)
+		case "fsmcleanup":
+			runH1Cleanup(*out, *seed, *tier)
+		case "fsmreports":
+			runH1Reports(*out, *seed, *tier)
 		case "fsmhist":
 			runH1Hist(*out, *seed, *tier)
 		default:
